@@ -141,6 +141,9 @@ FIRE = [
     ("mapping-name-case-sensitive", "C03", [(MT, "    if mapping.upper() not in available_mappings:", "    if mapping not in available_mappings:")], "K3.mapping-dispatch"),
     ("vector-mapping-name-case-sensitive", "C05", [(SV, "    if mapping.upper() not in available_mappings:", "    if mapping not in available_mappings:")], "K3"),
     ("odd-order-three-accepted", "C06", [(AU, "    if trotter_order > 1 and trotter_order % 2 != 0:", "    if trotter_order > 3 and trotter_order % 2 != 0:")], "K9.suzuki"),
+    ("reference-circuit-drops-spin", "C05", [(SV, "    vector = get_vector(n_spinorbitals, n_electrons, mapping, up_then_down=up_then_down, spin=spin)", "    vector = get_vector(n_spinorbitals, n_electrons, mapping, up_then_down=up_then_down)")], "K9.vector-to-circuit"),
+    ("scbk-edit-wrong-qubit", "C05", [(SCBK, '        if (spin_orbital - 1, "Z") in term:', '        if (spin_orbital, "Z") in term:')], "K8.scbk-qubits"),
+    ("scbk-state-register-size", "C05", [(SV, "        return do_scbk_transform(vector, len(vector))", "        return do_scbk_transform(vector, len(vector) - 2)")], "K8.scbk-qubits"),
     ("beta-fill-slice", "C05", [(SV, "        vector[1:2*n_beta+1:2] = 1", "        vector[1:2*n_beta:2] = 1")], "K9.alpha-beta"),
     ("scbk-state-deletes-wrong-qubit", "C05", [(SV, "    vector_scbk = np.delete(vector_bk, n_spinorbitals//2-1)", "    vector_scbk = np.delete(vector_bk, n_spinorbitals//2)")], "K8.scbk-qubits"),
     ("scbk-parity-from-beta", "C03", [(SCBK, "    parity_middle_orb = (-1)**n_alpha", "    parity_middle_orb = (-1)**(n_electrons - n_alpha)")], "K8.scbk-qubits"),
@@ -204,6 +207,8 @@ SILENT = [
     ("group-qwc-spelling", "C18", [(GROUP, "        if len(res2) < len(res):\n            res = res2", "        res = res2 if len(res2) < len(res) else res")]),
     ("penalty-spelling", "C12", [(PEN, "    all_terms = [[(), -sz]] + spinz_operator_list(n_orbs, up_then_down)\n", "    all_terms = spinz_operator_list(n_orbs, up_then_down)\n    all_terms.append([(), -1 * sz])\n")]),
     ("combined-penalty-spelling", "C12", [(PEN, '        prefactor, sz = penalty_terms["Sz"][:]', '        prefactor = penalty_terms["Sz"][0]\n        sz = penalty_terms["Sz"][1]')]),
+    ("reference-circuit-positional", "C05", [(SV, "    vector = get_vector(n_spinorbitals, n_electrons, mapping, up_then_down=up_then_down, spin=spin)", "    vector = get_vector(n_spinorbitals, n_electrons, mapping, up_then_down, spin)")]),
+    ("scbk-edit-spelling", "C05", [(SCBK, '        if (spin_orbital - 1, "Z") in term:\n            new_coefficient = coefficient*orbital_parity\n            new_term = tuple(i for i in term if i != (spin_orbital - 1, "Z"))', '        target = (spin_orbital - 1, "Z")\n        if target in term:\n            new_coefficient = orbital_parity*coefficient\n            new_term = tuple(i for i in term if i != target)')]),
     ("angle-law-spelling", "C06", [(AU, "    angle = 2.*coef if coef >= 0. else 4*np.pi+2*coef", "    angle = 2.*coef + (0. if coef >= 0. else 4*np.pi)")]),
     ("cirq-branches-reordered", "C01", [(TCIRQ, '        elif gate_name in {"SWAP"}:\n            target_circuit.append(GATE_CIRQ[gate_name](qubit_list[gate.target[0]], qubit_list[gate.target[1]]))\n        elif gate_name in {"CSWAP"}:\n            next_gate = GATE_CIRQ[gate_name].controlled(num_controls)\n            target_circuit.append(next_gate(*control_list, qubit_list[gate.target[0]], qubit_list[gate.target[1]]))\n',
                                          '        elif gate_name in {"CSWAP"}:\n            next_gate = GATE_CIRQ[gate_name].controlled(num_controls)\n            target_circuit.append(next_gate(*control_list, qubit_list[gate.target[0]], qubit_list[gate.target[1]]))\n        elif gate_name in {"SWAP"}:\n            target_circuit.append(GATE_CIRQ[gate_name](qubit_list[gate.target[0]], qubit_list[gate.target[1]]))\n')]),
